@@ -73,48 +73,36 @@ Theorem C11_multipart_iff_upload : forall t p files fmap,
 Proof. exact files_empty_iff. Qed.
 Print Assumptions C11_multipart_iff_upload.
 
-(* ---- headers ---- *)
-(* exact keys: the caller's value wins for every key he supplies; the default stays otherwise *)
-Theorem C11_headers_caller_wins_exact : forall u, keys_unique (map fst u) = true -> forall k v,
-  In (k, v) u -> hlookup k (dict_update default_headers u) = Some v.
-Proof. intros u U k v I. apply update_caller_wins; assumption. Qed.
-Print Assumptions C11_headers_caller_wins_exact.
+(* ---- headers (merge of /repo 7378d1f; finding F20 fixed, guard deleted) ---- *)
+(* the caller's value wins for every header he supplies, whatever its letter case: on the wire
+   (names case-insensitive) that name carries exactly his value.  Hypotheses: the caller's dict has
+   unique keys (any Python dict) and does not itself name one header twice in different cases *)
+Theorem C11_caller_wins_any_case : forall u k v,
+  keys_unique (map fst u) = true -> names_distinct_ci u = true ->
+  In (k, v) u -> wire_values k (merge_headers u) = [v].
+Proof. exact caller_wins_any_case. Qed.
+Print Assumptions C11_caller_wins_any_case.
 
-Theorem C11_headers_default_present : forall u, ~ In "Content-Type" (map fst u) ->
-  hlookup "Content-Type" (dict_update default_headers u) = Some "application/json".
-Proof. exact update_default_kept. Qed.
-Print Assumptions C11_headers_default_present.
-
-(* on the wire header names are case-insensitive.  Full statement: one Content-Type value, the
-   caller's if he supplied one in any case *)
-Definition caller_content_type (u : headers) : option string :=
-  match filter (fun p => String.eqb (lower (fst p)) "content-type") u with
-  | [] => None
-  | p :: _ => Some (snd p)
-  end.
+(* exactly one Content-Type on the wire: the caller's if he supplied one in any case, else the default *)
 Definition C11_content_type_full : Prop := forall u,
   keys_unique (map fst u) = true -> names_distinct_ci u = true ->
-  wire_values "content-type" (dict_update default_headers u) =
+  wire_values "content-type" (merge_headers u) =
   [match caller_content_type u with Some v => v | None => "application/json" end].
+Theorem C11_content_type : C11_content_type_full.
+Proof. exact content_type_on_wire. Qed.
+Print Assumptions C11_content_type.
 
-(* refuted on the faithful model (finding F20): both values are sent *)
-Theorem C11_content_type_refuted : ~ C11_content_type_full.
-Proof.
-  intro H. specialize (H [("content-type", "text/plain")] eq_refl eq_refl).
-  vm_compute in H. discriminate.
-Qed.
-Print Assumptions C11_content_type_refuted.
+Theorem C11_headers_default_present : forall u, has_ct u = false -> keys_unique (map fst u) = true ->
+  merge_headers u = ("Content-Type", "application/json") :: u.
+Proof. intros u H U. unfold merge_headers. rewrite H. apply no_ct_shape; assumption. Qed.
+Print Assumptions C11_headers_default_present.
 
-Theorem C11_caller_wins_refuted : exists u, keys_unique (map fst u) = true /\ names_distinct_ci u = true /\
-  wire_values "content-type" (dict_update default_headers u) = ["application/json"; "text/plain"].
-Proof. exists [("content-type", "text/plain")]. vm_compute. auto. Qed.
-
-(* proved with the finding class as the explicit guard *)
-Theorem C11_content_type_partial : forall u, keys_unique (map fst u) = true -> ct_other_case u = false ->
-  wire_values "content-type" (dict_update default_headers u) =
-  [match hlookup "Content-Type" u with Some v => v | None => "application/json" end].
-Proof. exact wire_content_type. Qed.
-Print Assumptions C11_content_type_partial.
+Example C11_headers_examples :
+  merge_headers [("content-type", "text/plain"); ("X-A", "1")] = [("content-type", "text/plain"); ("X-A", "1")] /\
+  wire_values "Content-Type" (merge_headers [("CONTENT-TYPE", "text/plain")]) = ["text/plain"] /\
+  merge_headers [("X-A", "1")] = [("Content-Type", "application/json"); ("X-A", "1")] /\
+  names_distinct_ci [("content-type", "a"); ("X-A", "1")] = true.
+Proof. vm_compute. repeat split. Qed.
 
 (* ---- Upload anywhere => multipart: refuted for a model below a plain dict (finding
    C11-model-under-dict): the request is never built, PydanticSerializationError escapes ---- *)
@@ -128,6 +116,32 @@ Proof.
     vm_compute; reflexivity.
 Qed.
 Print Assumptions C11_upload_anywhere_refuted.
+
+(* ---- the body: exactly query, operationName, variables; UNSET never sent ----
+   For every call whose request is sent (JSON body or the multipart "operations" field): the body is
+   the object with exactly those three keys in that order, carrying the caller's query and operation
+   name; "variables" is an object whose keys are exactly the caller's top-level keys that are not UNSET,
+   in order; and it is the JSON encoding (to_json) of a tree containing no UNSET anywhere. *)
+Theorem C11_body_exact_unset_never_sent : forall url c b, request_body (build_request url c) = Some b ->
+  exists vj, b = JObj [("query", JStr (c_query c)); ("operationName", opname_json (c_opname c));
+                       ("variables", JObj vj)] /\
+    map fst vj = top_level_keys (c_vars c) /\
+    to_json (VDict (fst (process_variables (c_vars c)))) = Some (JObj vj) /\
+    has_unset (VDict (fst (process_variables (c_vars c)))) = false.
+Proof. exact body_exact. Qed.
+Print Assumptions C11_body_exact_unset_never_sent.
+
+(* the encoder itself: whatever json.dumps(default=to_jsonable_python) encodes has no UNSET in it *)
+Theorem C11_encoder_rejects_unset : forall t j, to_json t = Some j -> has_unset t = false.
+Proof. exact to_json_no_unset. Qed.
+Print Assumptions C11_encoder_rejects_unset.
+
+(* ---- the dotted strings on the wire are unambiguous when keys contain no '.' (GraphQL names):
+   equal renderings have equal segment strings, one by one (decimal indices are proved dot-free) ---- *)
+Theorem C11_render_injective : forall p p', keys_dot_free p = true -> keys_dot_free p' = true ->
+  render_path p = render_path p' -> map seg_to_string p = map seg_to_string p'.
+Proof. exact render_injective. Qed.
+Print Assumptions C11_render_injective.
 
 (* ---- client state and schedules (by construction of the model; the tie compares vars(client)
    before/after and concurrent runs with solo runs) ---- *)
